@@ -504,7 +504,14 @@ Print Assumptions C03_legacy_sign_is_crunchy_over_suffixed_message.
        other message, IS a named oracle event (iff), no claim that it is hard;
    (2) same key, other message: acceptance exhibits an oracle acceptance of the
        genuine raw signature under the SAME key for another representative
-       (the EUF-CMA shaped event) or a hash collision on two distinct strings;
+       (the EUF-CMA shaped event) or a hash collision on two distinct strings.
+       The second conjunct of these theorems is only a CASE LABEL (the digests
+       differ, or they are equal and the strings are not): it is a tautology
+       given msg' <> msg; the content is the first conjunct.  "Another digest"
+       is another byte string: for P-384 with SHA-512 crypto/ecdsa uses only
+       the leftmost 384 bits of the digest, so there the event includes a
+       collision of the TRUNCATED hash (two distinct 64-byte digests with the
+       same first 48 bytes verify alike);
    (3) other key, ECDSA: the literal clause is FALSE for keys computed from the
        signature (recovery law). *)
 
@@ -615,30 +622,45 @@ Theorem C03_ecdsa_same_key_other_message_is_oracle_forgery :
 Proof. exact ecdsa_same_key_other_message_reduction. Qed.
 Print Assumptions C03_ecdsa_same_key_other_message_is_oracle_forgery.
 
-(* "Signatures are rejected under other keys" is FALSE for ECDSA when the
-   other key may be computed from the signature.  [recover c d r s] is ECDSA
-   public-key recovery (p = r^-1 (s R - d G), R a point with abscissa r; None
-   when there is none).  Under its law -- whatever it returns verifies, which
-   real ECDSA satisfies -- Verify ACCEPTS the genuine signature, for ANY
-   message msg' and hash h', under the recovered key.  (The harness builds
-   that key with crypto/elliptic for P-256 and observes tink-go accepting.)
-   This is a property of ECDSA, not of tink-go; "other key rejected" holds for
-   independently generated keys only up to the primitive
-   (C03_ecdsa_genuine_signature_accepted_iff_oracle_event names the event). *)
+(* "Signatures are rejected under other keys" is REFUTED for ECDSA.  First
+   form: the premises are what public-key recovery provides (a point p' other
+   than the signer's that verifies the genuine (r, s) for the digest of ANY
+   message msg' -- p' = r^-1 (s R - d' G), R a point with abscissa r; the
+   harness computes it with crypto/elliptic and the Example's toy oracle has
+   it); conclusion: it is NOT the case that every other key rejects.  Second
+   form: from an existence law on the oracle that real ECDSA satisfies (the key
+   recovered from the second candidate -R verifies the same digest), for the
+   genuine message itself.  This is a property of ECDSA, not of tink-go: "other
+   key rejected" holds for independently generated keys only up to the
+   primitive (C03_ecdsa_genuine_signature_accepted_iff_oracle_event names the
+   event). *)
 Theorem C03_ecdsa_other_key_rejected_refuted :
   forall H raw (sign_rs : curve -> bytes -> bytes -> bytes -> N * N),
     (forall c sk h rnd, fst (sign_rs c sk h rnd) < 256 ^ N.of_nat (field_size c) /\
                         snd (sign_rs c sk h rnd) < 256 ^ N.of_nat (field_size c)) ->
-    forall (recover : curve -> bytes -> N -> N -> option bytes),
-    (forall c d r s p, recover c d r s = Some p -> raw c p d r s = true) ->
     forall k sk rnd msg sig h' msg' p',
     ecdsa_sign H sign_rs k sk rnd msg = Some sig ->
     let sfx := suffix (ek_variant k) in
     let rs := sign_rs (ek_curve k) sk (H (ek_hash k) (msg ++ sfx)) rnd in
-    recover (ek_curve k) (H h' (msg' ++ sfx)) (fst rs) (snd rs) = Some p' ->
-    ecdsa_verify H raw (ecdsa_with_pub_hash k p' h') sig msg' = Ok tt.
-Proof. exact ecdsa_other_key_rejected_is_false. Qed.
+    raw (ek_curve k) p' (H h' (msg' ++ sfx)) (fst rs) (snd rs) = true ->
+    p' <> ek_pub k ->
+    ~ (forall pub', pub' <> ek_pub k ->
+         ecdsa_verify H raw (ecdsa_with_pub_hash k pub' h') sig msg' = Err).
+Proof. exact ecdsa_other_key_rejected_refuted. Qed.
 Print Assumptions C03_ecdsa_other_key_rejected_refuted.
+
+Theorem C03_ecdsa_other_key_rejected_refuted_by_existence_law :
+  forall H raw (sign_rs : curve -> bytes -> bytes -> bytes -> N * N),
+    (forall c sk h rnd, fst (sign_rs c sk h rnd) < 256 ^ N.of_nat (field_size c) /\
+                        snd (sign_rs c sk h rnd) < 256 ^ N.of_nat (field_size c)) ->
+    forall k sk rnd msg sig,
+    (forall c p d r s, raw c p d r s = true -> exists p', p' <> p /\ raw c p' d r s = true) ->
+    ecdsa_sign H sign_rs k sk rnd msg = Some sig ->
+    ecdsa_verify H raw k sig msg = Ok tt ->
+    ~ (forall pub', pub' <> ek_pub k ->
+         ecdsa_verify H raw (ecdsa_with_pub_hash k pub' (ek_hash k)) sig msg = Err).
+Proof. exact ecdsa_other_key_rejected_refuted_by_existence. Qed.
+Print Assumptions C03_ecdsa_other_key_rejected_refuted_by_existence_law.
 
 (* ---------------- the premises of the second round are inhabited ---------------- *)
 
@@ -746,9 +768,9 @@ Proof. cbv zeta. repeat split; try (vm_compute; reflexivity); discriminate. Qed.
    signature for message [9] is accepted for message [10] under the recovered
    key, which differs from the signer's key. *)
 Definition toy_sign_rs (_ : curve) (_ _ _ : bytes) : N * N := (7, 300).
-Definition toy_raw_rec (_ : curve) (p d : bytes) (r s : N) : bool := beq p (4 :: d) && (r =? 7) && (s =? 300).
-Definition toy_recover (_ : curve) (d : bytes) (r s : N) : option bytes :=
-  if (r =? 7) && (s =? 300) then Some (4 :: d) else None.
+(* verifies (7, 300) for digest d under the two points 04 || d and 05 || d *)
+Definition toy_raw_rec (_ : curve) (p d : bytes) (r s : N) : bool :=
+  (beq p (4 :: d) || beq p (5 :: d)) && (r =? 7) && (s =? 300).
 
 Example C03_example_ecdsa_reduction :
   (forall c sk h rnd, fst (toy_sign_rs c sk h rnd) < 256 ^ N.of_nat (field_size c) /\
@@ -756,24 +778,28 @@ Example C03_example_ecdsa_reduction :
   ecdsa_sign toyH toy_sign_rs (toy_key DER VTink) [5] [6] [9] = Some [1;1;2;3;4; 48;7; 2;1;7; 2;2;1;44] /\
   ecdsa_verify toyH toy_raw (toy_key DER VTink) [1;1;2;3;4; 48;7; 2;1;7; 2;2;1;44] [10] = Ok tt /\
   [10] <> ([9] : bytes) /\
-  (* recovery *)
-  (forall c d r s p, toy_recover c d r s = Some p -> toy_raw_rec c p d r s = true) /\
-  toy_recover P256 (toyH SHA256 ([10] ++ suffix VTink)) 7 300 = Some [4; 10] /\
-  ecdsa_verify toyH toy_raw_rec (ecdsa_with_pub_hash (toy_key DER VTink) [4; 9] SHA256)
-               [1;1;2;3;4; 48;7; 2;1;7; 2;2;1;44] [9] = Ok tt /\
-  ecdsa_verify toyH toy_raw_rec (ecdsa_with_pub_hash (toy_key DER VTink) [4; 10] SHA256)
-               [1;1;2;3;4; 48;7; 2;1;7; 2;2;1;44] [10] = Ok tt /\
-  [4; 10] <> ([4; 9] : bytes) /\
-  (* under the signer's own key the other message is rejected by this oracle *)
-  ecdsa_verify toyH toy_raw_rec (ecdsa_with_pub_hash (toy_key DER VTink) [4; 9] SHA256)
-               [1;1;2;3;4; 48;7; 2;1;7; 2;2;1;44] [10] = Err.
+  (* first form: the signer's key is 04 09; the point 04 0a verifies the genuine
+     (r, s) for the digest of message [10], and it is another key *)
+  (let k := ecdsa_with_pub_hash (toy_key DER VTink) [4; 9] SHA256 in
+   ecdsa_sign toyH toy_sign_rs k [5] [6] [9] = Some [1;1;2;3;4; 48;7; 2;1;7; 2;2;1;44] /\
+   ecdsa_verify toyH toy_raw_rec k [1;1;2;3;4; 48;7; 2;1;7; 2;2;1;44] [9] = Ok tt /\
+   toy_raw_rec P256 [4; 10] (toyH SHA256 ([10] ++ suffix VTink)) 7 300 = true /\
+   [4; 10] <> ek_pub k /\
+   ecdsa_verify toyH toy_raw_rec (ecdsa_with_pub_hash k [4; 10] SHA256) [1;1;2;3;4; 48;7; 2;1;7; 2;2;1;44] [10] = Ok tt /\
+   (* under the signer's own key the other message is rejected by this oracle *)
+   ecdsa_verify toyH toy_raw_rec k [1;1;2;3;4; 48;7; 2;1;7; 2;2;1;44] [10] = Err /\
+   (* second form: the genuine message under the other point 05 09 *)
+   ecdsa_verify toyH toy_raw_rec (ecdsa_with_pub_hash k [5; 9] SHA256) [1;1;2;3;4; 48;7; 2;1;7; 2;2;1;44] [9] = Ok tt) /\
+  (* the existence law holds for this oracle *)
+  (forall c p d r s, toy_raw_rec c p d r s = true -> exists p', p' <> p /\ toy_raw_rec c p' d r s = true).
 Proof.
   split; [intros c sk h rnd; destruct c; vm_compute; split; reflexivity|].
-  repeat split; try (vm_compute; reflexivity); try discriminate.
-  intros c d r s p Hc. unfold toy_recover in Hc.
-  destruct ((r =? 7) && (s =? 300)) eqn:E; [|discriminate]. injection Hc as <-.
-  unfold toy_raw_rec. rewrite beq_refl. apply andb_true_iff in E. destruct E as [E1 E2].
-  rewrite E1, E2. reflexivity.
+  cbv zeta. repeat split; try (vm_compute; reflexivity); try discriminate.
+  intros c p d r s Hc. unfold toy_raw_rec in *.
+  apply andb_true_iff in Hc. destruct Hc as [Hc Hs]. apply andb_true_iff in Hc. destruct Hc as [Hp Hr].
+  rewrite Hr, Hs. apply orb_true_iff in Hp. destruct Hp as [Hp|Hp]; apply beq_eq in Hp; subst p.
+  - exists (5 :: d). split; [discriminate|]. rewrite (beq_refl (5 :: d)), orb_true_r. reflexivity.
+  - exists (4 :: d). split; [discriminate|]. rewrite (beq_refl (4 :: d)). reflexivity.
 Qed.
 
 (* ====================================================================== *)
@@ -845,24 +871,91 @@ Proof.
 Qed.
 Print Assumptions C03_rfc8017_sign_then_verify.
 
-(* tink-go's accept set with the RFC verifier as the standard algorithm: Verify
-   accepts sig for msg iff sig = prefix || body and RSASSA-*-VERIFY of RFC 8017
-   accepts body for Hash(msg || legacy suffix) (PSS: MGF1 over the same hash,
-   the key's salt length); and what the RFC signer produces for that digest,
-   framed with the key's prefix, is accepted. *)
-Theorem C03_rsa_accept_set_is_rfc8017 :
-  forall Hash rsaep k sig msg,
+(* ---- crypto/rsa as tink-go calls it ----
+   pkcs1_verify / pss_verify are parametric in the standard verification.  The
+   instance below is a MODEL of the calls tink-go makes, written over the RFC
+   functions (it is not derived from the source of crypto/rsa; what ties it to
+   crypto/rsa is the differential run, in which exactly these extracted
+   functions stand for the library):
+     rsa.VerifyPKCS1v15(pub, hash, digest, sig)           := rfc_pkcs1_verify
+     rsa.VerifyPSS(pub, hash, digest, sig, {SaltLength: sl}) := go_pss_verify sl
+   where go_pss_verify transcribes the option handling of crypto/rsa: a
+   positive sl is the strict sLen; sl = 0 is PSSSaltLengthAuto, i.e. the salt
+   length is detected from the position of the 0x01 separator.  tink-go passes
+   the key's SaltLengthBytes unchanged, so for keys with salt length 0 the salt
+   length is NOT bound -- the known finding "rsassapss saltlen=0 not bound" is
+   part of this model and of the theorems below. *)
+
+(* the option handling: positive = strict; 0 = some salt length *)
+Theorem C03_go_pss_salt_length_option :
+  forall Hash rsaep, (forall h m, length (Hash h m) = hlen h) ->
+  forall n e h sl d sig,
+    (sl <> 0 -> go_pss_verify Hash rsaep n e h sl d sig = rfc_pss_verify Hash rsaep n e h sl d sig) /\
+    (go_pss_verify Hash rsaep n e h 0 d sig = true <->
+     exists sl' : N, rfc_pss_verify Hash rsaep n e h sl' d sig = true) /\
+    go_pss_verify Hash rsaep n e h sl d sig = std_pss (go_pss_verify Hash rsaep) n e h sl d sig.
+Proof.
+  intros Hash rsaep HL n e h sl d sig. split; [apply go_pss_verify_positive|].
+  split; [apply go_pss_verify_zero_iff; exact HL|apply go_pss_is_std; exact HL].
+Qed.
+Print Assumptions C03_go_pss_salt_length_option.
+
+(* accept sets of tink-go over this model of the library calls *)
+Theorem C03_rsa_accept_set_with_go_calls_over_rfc8017 :
+  forall Hash rsaep, (forall h m, length (Hash h m) = hlen h) ->
+  forall k sig msg,
+    let d := Hash (rk_hash k) (msg ++ suffix (rk_variant k)) in
     (pkcs1_verify Hash (rfc_pkcs1_verify rsaep) k sig msg = Ok tt <->
      exists body, sig = prefix (rk_variant k) (rk_id k) ++ body /\
-       rfc_pkcs1_verify rsaep (rk_n k) (rk_e k) (rk_hash k)
-                        (Hash (rk_hash k) (msg ++ suffix (rk_variant k))) body = true) /\
-    (pss_verify Hash (rfc_pss_verify Hash rsaep) k sig msg = Ok tt <->
-     exists body, sig = prefix (rk_variant k) (rk_id k) ++ body /\
-       rfc_pss_verify Hash rsaep (rk_n k) (rk_e k) (rk_hash k) (rk_salt k)
-                      (Hash (rk_hash k) (msg ++ suffix (rk_variant k))) body = true).
-Proof. intros. split; [apply pkcs1_verify_iff_proof|apply pss_verify_iff_proof]. Qed.
-Print Assumptions C03_rsa_accept_set_is_rfc8017.
+       rfc_pkcs1_verify rsaep (rk_n k) (rk_e k) (rk_hash k) d body = true) /\
+    (* a key with a positive salt length: exactly that salt length *)
+    (rk_salt k <> 0 ->
+     (pss_verify Hash (go_pss_verify Hash rsaep) k sig msg = Ok tt <->
+      exists body, sig = prefix (rk_variant k) (rk_id k) ++ body /\
+        rfc_pss_verify Hash rsaep (rk_n k) (rk_e k) (rk_hash k) (rk_salt k) d body = true)) /\
+    (* a key with salt length 0: ANY salt length (the known finding) *)
+    (rk_salt k = 0 ->
+     (pss_verify Hash (go_pss_verify Hash rsaep) k sig msg = Ok tt <->
+      exists body sl, sig = prefix (rk_variant k) (rk_id k) ++ body /\
+        rfc_pss_verify Hash rsaep (rk_n k) (rk_e k) (rk_hash k) sl d body = true)).
+Proof.
+  intros Hash rsaep HL k sig msg d. split; [apply pkcs1_verify_iff_proof|]. split.
+  - intros Hs. rewrite pss_verify_iff_proof. fold d. split; intros [body [E V]]; exists body; split; auto.
+    + rewrite <- go_pss_verify_positive by exact Hs. exact V.
+    + rewrite go_pss_verify_positive by exact Hs. exact V.
+  - intros Hs. rewrite pss_verify_iff_proof. fold d. rewrite Hs. split.
+    + intros [body [E V]]. apply (go_pss_verify_zero_iff Hash rsaep HL) in V. destruct V as [sl V].
+      exists body, sl. auto.
+    + intros [body [sl [E V]]]. exists body. split; [exact E|].
+      apply (go_pss_verify_zero_iff Hash rsaep HL). exists sl. exact V.
+Qed.
+Print Assumptions C03_rsa_accept_set_with_go_calls_over_rfc8017.
 
+(* The known finding as a theorem: for a key whose salt length is 0, an
+   encoding made with ANY non-empty salt is accepted by the auto-detecting
+   verification although the strict EMSA-PSS-VERIFY with sLen = 0 rejects it. *)
+Theorem C03_rsa_pss_salt_length_zero_is_not_bound :
+  forall Hash, (forall h m, length (Hash h m) = hlen h) ->
+  forall h mHash emBits salt EM,
+    emsa_pss_encode Hash h mHash emBits salt = Some EM -> salt <> [] ->
+    emsa_pss_verify_auto Hash h mHash EM emBits = true /\
+    emsa_pss_verify Hash h mHash EM emBits 0 = false.
+Proof.
+  intros Hash HL h mHash emBits salt EM He Hne. split.
+  - apply (emsa_pss_verify_auto_iff Hash HL). exists (length salt).
+    apply emsa_pss_verify_encode; assumption.
+  - destruct (emsa_pss_verify Hash h mHash EM emBits 0) eqn:Ev; [exfalso|reflexivity].
+    apply (emsa_pss_verify_only_encodings Hash HL) in Ev. destruct Ev as [s0 [L0 E0]].
+    pose proof (emsa_pss_salt_length_is_bound Hash HL h mHash emBits salt s0 EM He E0) as Es.
+    subst s0. destruct salt; [contradiction|discriminate].
+Qed.
+Print Assumptions C03_rsa_pss_salt_length_zero_is_not_bound.
+
+(* what the RFC signer produces for Hash(msg || suffix), framed with the key's
+   prefix, is accepted by tink-go over the modelled library calls: PKCS1 always;
+   PSS when the salt has the key's salt length, or ANY length (that fits) when
+   the key's salt length is 0 -- crypto/rsa.SignPSS then uses the maximal
+   length go_pss_salt_len = emLen - 2 - hLen *)
 Theorem C03_rsa_rfc8017_signature_verifies_under_tink :
   forall Hash rsaep rsadp,
     (forall h m, length (Hash h m) = hlen h) -> (forall h m, wfb (Hash h m)) ->
@@ -873,26 +966,37 @@ Theorem C03_rsa_rfc8017_signature_verifies_under_tink :
     let d := Hash (rk_hash k) (msg ++ suffix (rk_variant k)) in
     (exists body, rfc_pkcs1_sign rsadp (rk_n k) sk (rk_hash k) d = Some body /\
        pkcs1_verify Hash (rfc_pkcs1_verify rsaep) k (prefix (rk_variant k) (rk_id k) ++ body) msg = Ok tt) /\
-    (wfb salt -> N.of_nat (length salt) = rk_salt k ->
+    (wfb salt -> (rk_salt k = 0 \/ N.of_nat (length salt) = rk_salt k) ->
      (hlen (rk_hash k) + length salt + 2 <= (mod_bits (rk_n k) - 1 + 7) / 8)%nat ->
      exists body, rfc_pss_sign Hash rsadp (rk_n k) sk (rk_hash k) d salt = Some body /\
-       pss_verify Hash (rfc_pss_verify Hash rsaep) k (prefix (rk_variant k) (rk_id k) ++ body) msg = Ok tt).
+       pss_verify Hash (go_pss_verify Hash rsaep) k (prefix (rk_variant k) (rk_id k) ++ body) msg = Ok tt) /\
+    (rk_salt k = 0 ->
+     (hlen (rk_hash k) + go_pss_salt_len (rk_n k) (rk_hash k) (rk_salt k) + 2 = (mod_bits (rk_n k) - 1 + 7) / 8)%nat).
 Proof.
   intros Hash rsaep rsadp HL HW k sk HP Hok msg salt d.
   pose proof (rsa_key_ok_sig_len _ _ Hok) as Hk.
-  split.
+  assert (Hm : (2048 <= mod_bits (rk_n k))%nat).
+  { unfold rsa_key_ok in Hok. apply andb_true_iff in Hok. destruct Hok as [Hb _].
+    apply N.leb_le in Hb. unfold mod_bits. lia. }
+  split; [|split].
   - destruct (rfc_pkcs1_sign_then_verify Hash rsaep rsadp HL HW (rk_n k) (rk_e k) sk HP (rk_hash k) d
                 (HW _ _) (HL _ _)) as [body [S V]].
     { destruct (rk_hash k); cbn [digest_info hlen length]; lia. }
     exists body. split; [exact S|]. apply pkcs1_verify_iff_proof. exists body. auto.
   - intros Ws Es Hs.
-    assert (Hm : (1 <= mod_bits (rk_n k))%nat).
-    { unfold rsa_key_ok in Hok. apply andb_true_iff in Hok. destruct Hok as [Hb _].
-      apply N.leb_le in Hb. unfold mod_bits. lia. }
     destruct (rfc_pss_sign_then_verify Hash rsaep rsadp HL HW (rk_n k) (rk_e k) sk HP (rk_hash k) d salt
-                (HW _ _) Ws (HL _ _) Hm Hs) as [body [S V]].
+                (HW _ _) Ws (HL _ _) ltac:(lia) Hs) as [body [S V]].
     exists body. split; [exact S|]. apply pss_verify_iff_proof. exists body. split; [reflexivity|].
-    rewrite <- Es. exact V.
+    fold d. destruct Es as [E0|Es].
+    + rewrite E0. apply (go_pss_verify_zero_iff Hash rsaep HL). eexists. exact V.
+    + destruct (N.eq_dec (rk_salt k) 0) as [E0|En].
+      * rewrite E0. apply (go_pss_verify_zero_iff Hash rsaep HL). eexists. exact V.
+      * rewrite go_pss_verify_positive by exact En. rewrite <- Es. exact V.
+  - intros E0. unfold go_pss_salt_len. rewrite E0. cbn [N.eqb].
+    assert (Hh : (hlen (rk_hash k) <= 64)%nat) by (destruct (rk_hash k); cbn; lia).
+    assert (Hd : (255 <= (mod_bits (rk_n k) - 1 + 7) / 8)%nat).
+    { apply Nat.div_le_lower_bound; lia. }
+    lia.
 Qed.
 Print Assumptions C03_rsa_rfc8017_signature_verifies_under_tink.
 
@@ -916,6 +1020,13 @@ Example C03_example_rfc8017 :
        rfc_pss_verify toyHashL toy_ep n2048 65537 SHA256 4 d s = true /\
        rfc_pss_verify toyHashL toy_ep n2048 65537 SHA256 3 d s = false /\
        rfc_pss_verify toyHashL toy_ep n2048 65537 SHA256 5 d s = false /\
+       (* crypto/rsa's option handling: SaltLength 4 strict, SaltLength 0 auto-detects *)
+       go_pss_verify toyHashL toy_ep n2048 65537 SHA256 4 d s = true /\
+       go_pss_verify toyHashL toy_ep n2048 65537 SHA256 3 d s = false /\
+       go_pss_verify toyHashL toy_ep n2048 65537 SHA256 0 d s = true /\
+       rfc_pss_verify toyHashL toy_ep n2048 65537 SHA256 0 d s = false /\
+       go_pss_verify toyHashL toy_ep n2048 65537 SHA256 0 d (tl s) = false /\
+       go_pss_salt_len n2048 SHA256 0 = 222%nat /\
        rfc_pss_verify toyHashL toy_ep n2048 65537 SHA256 4 (toyHashL SHA256 [10]) s = false /\
        rfc_pss_verify toyHashL toy_ep n2048 65537 SHA256 4 d (tl s) = false /\
        rfc_pkcs1_verify toy_ep n2048 65537 SHA256 d s1 = true /\
